@@ -265,7 +265,15 @@ pub fn run(tier: Tier) -> i32 {
         };
         // configuration A: a contract of state variables; a file-level struct; a struct nested in a contract
         let variant = i % 3;
-        toks.extend(["contract".to_string(), "A".into(), "{".into()]);
+        // the contract header rotates through the spellings of a contract definition: plain, abstract, with one
+        // base, with base arguments and two bases (the property speaks of "a contract" without qualification)
+        let header = match (i / 3) % 4 {
+            0 => "contract A {",
+            1 => "abstract contract A {",
+            2 => "contract A is Base {",
+            _ => "contract A is Base ( 1 ) , Other {",
+        };
+        toks.extend(header.split(' ').map(|x| x.to_string()));
         for (k, chunk) in fields(i, "a", false).chunks(1).enumerate() {
             let _ = k;
             toks.extend(chunk.iter().cloned());
@@ -277,7 +285,7 @@ pub fn run(tier: Tier) -> i32 {
         toks.extend(["struct".to_string(), "S".into(), "{".into()]);
         toks.extend(fields(i + 1, "s", false));
         toks.push("}".into());
-        toks.extend(["contract".to_string(), "B".into(), "{".into()]);
+        toks.extend((if (i / 12) % 2 == 0 { "contract B {" } else { "contract B is A {" }).split(' ').map(|x| x.to_string()));
         if variant == 2 {
             // members interleaved with non-variable members
             let f = fields(i + 2, "b", false);
